@@ -9,6 +9,51 @@ from harness.props import c07, c15
 VFILES = ["theories/Lower.v", "theories/KSem.v", "theories/KSimBase.v", "theories/KSim.v", "theories/Equiv.v"]
 
 
+def signature_programs(rng, count):
+    """functions and lambdas of every parameter shape (defaults on ANY subset of the keyword-only parameters, on a suffix of the
+    positional ones), called with the required arguments only, so that every default value is observed"""
+    import itertools
+    shapes = []
+    for npos, narg, va, nkw, kw in itertools.product(range(2), range(3), (False, True), range(4), (False, True)):
+        for ndef in range(npos + narg + 1):
+            for kwdefs in itertools.product((False, True), repeat=nkw):
+                shapes.append((npos, narg, va, nkw, kw, ndef, kwdefs))
+    fixed = [sh for sh in shapes if sh[0] == 0 and sh[1] == 0 and not sh[2] and not sh[4] and sh[3] >= 2]
+    chosen = fixed + rng.sample(shapes, count)
+    out = []
+    for npos, narg, va, nkw, kw, ndef, kwdefs in chosen:
+        positional = [f"p{i}" for i in range(npos)] + [f"a{i}" for i in range(narg)]
+        parts, args, k = [], [], 0
+        for i, nm in enumerate(positional):
+            if i >= len(positional) - ndef:
+                k += 1
+                parts.append(f"{nm}={k * 10}")
+            else:
+                parts.append(nm)
+                args.append(str(i + 1))
+            if i == npos - 1:
+                parts.append("/")
+        if va:
+            parts.append("*va")
+        elif nkw:
+            parts.append("*")
+        for j, hasd in enumerate(kwdefs):
+            if hasd:
+                k += 1
+                parts.append(f"k{j}={k * 10}")
+            else:
+                parts.append(f"k{j}")
+                args.append(f"k{j}={j + 100}")
+        if kw:
+            parts.append("**kw")
+        names = positional + (["va"] if va else []) + [f"k{j}" for j in range(nkw)] + (["kw"] if kw else [])
+        ret = "(" + ", ".join(names) + ("," if names else "") + ")"
+        sig, call = ", ".join(parts), ", ".join(args)
+        out.append(f"def f({sig}):\n    return {ret}\nprint(f({call}))\ng = lambda {sig}: {ret}\nprint(g({call}))\n"
+                   f"class K:\n    def m(self{', ' if sig else ''}{sig}):\n        return {ret}\nprint(K().m({call}))\n")
+    return out
+
+
 def programs(chk):
     rng = random.Random(chk.seed * 29 + 1)
     big = chk.tier == "thorough"
@@ -44,6 +89,8 @@ def programs(chk):
         add("probe programs", gen_order.PRELUDE + body + "\n")
     for name, body in c07.GUARDED.items():
         add("statement templates", c07.PRELUDE + body + "\n")
+    for p in signature_programs(rng, 400 if big else 30):
+        add("parameter shapes (defaults on any subset of the keyword-only parameters)", p)
     return out, dist
 
 
